@@ -263,15 +263,27 @@ def x86_montgomery(aprog, variant, timeout_ms=120000):
     Tl = lin_sum(L, [cut[n][1] for n in sigma])
     U = lin_sum(L, ims)
     ident = L.z(Tl) * R384 == L.z(A) + L.z(U) * Q
-    ok = L.prove_hard(ident, "montgomery identity", 100)
+    def reference(env):
+        a_ = sum(env["a%d" % i] << (64 * i) for i in range(12))
+        for i in range(6):
+            u = ((a_ >> (64 * i)) & ((1 << 64) - 1)) * QINV64 % (1 << 64)
+            a_ += (u * Q) << (64 * i)
+        return a_ >> 384
+    ok = None
+    if X.lost_carries:
+        # a carry was dropped without being provably zero: evaluate the encoding at a few inputs before asking for the proof (a routine that is
+        # wrong on a sizeable fraction of its inputs is refuted here at once; the solver then spends its budget only on plausible code)
+        hit = L.point_search(lambda env: L.evaluate(Tl, env) != reference(env))
+        if hit is not None:
+            ce = dict(extra)
+            ce["a"] = hex(sum(hit["a%d" % i] << (64 * i) for i in range(12)))
+            ce["lost_carries"] = ["%#x %s" % (a, t) for a, t, _ in X.lost_carries]
+            raise Violation(key + ":identity", "%s: T*2^384 != a + U*p at the first compare (the encoding evaluated at an input; carries dropped without being provably "
+                            "zero: %s)" % (sym, "; ".join(ce["lost_carries"][:4])), ce)
+    if ok is None:
+        ok = L.prove_hard(ident, "montgomery identity", 100)
     if ok is None:
         # lost-carry search (see LinCtx.wrap_search): inputs that make a truncation quotient or a dropped carry non-zero, checked against the definition
-        def reference(env):
-            a_ = sum(env["a%d" % i] << (64 * i) for i in range(12))
-            for i in range(6):
-                u = ((a_ >> (64 * i)) & ((1 << 64) - 1)) * QINV64 % (1 << 64)
-                a_ += (u * Q) << (64 * i)
-            return a_ >> 384
         hit = L.wrap_search(lambda env: L.evaluate(Tl, env) != reference(env), [c[2] for c in X.lost_carries if len(c) > 2])
         if hit is not None:
             ce = dict(extra)
